@@ -570,4 +570,25 @@ theorem run_inv {p : Pars} : ∀ (ins : List StepIn) (ti : Nat) {s s' : State}, 
       · rename_i s1 h1
         exact run_inv is (ti + 1) (fun j hj => hi j (by simp [hj])) h (simStep_inv (hi i (by simp)) h1 e)
 
+/-- re-parameterised histories: the invariant survives whatever parameters each step is run with -/
+theorem runP_inv : ∀ (ins : List (Pars × StepIn)) (ti : Nat) {s s' : State}, (∀ i ∈ ins, i.2.ok) →
+    runP ti ins s = .ok s' → Inv s → Inv s'
+  | [], _, s, s', _, h, e => by simp only [runP, Except.ok.injEq] at h; subst h; exact e
+  | (p, i) :: is, ti, s, s', hi, h, e => by
+      simp only [runP] at h
+      split at h
+      · simp at h
+      · rename_i s1 h1
+        exact runP_inv is (ti + 1) (fun j hj => hi j (by simp [hj])) h (simStep_inv (hi (p, i) (by simp)) h1 e)
+
+/-- a history with constant parameters is the special case -/
+theorem runP_const (p : Pars) : ∀ (ins : List StepIn) (ti : Nat) (s : State),
+    runP ti (ins.map (fun i => (p, i))) s = run p ti ins s
+  | [], _, _ => rfl
+  | i :: is, ti, s => by
+      simp only [List.map_cons, runP, run]
+      cases simStep p ti i s with
+      | error e => rfl
+      | ok s1 => exact runP_const p is (ti + 1) s1
+
 end StarsimModel.Pregnancy
